@@ -139,6 +139,26 @@ L_CLASSES = [
     '2000-01-01 *', '2000-01-01 ! "p" "n" #t ^l ; ic\n  aa: 1\n  ! Assets:Foo 1 USD {2 # 3 EUR, 2000-01-01, "l", *} @ 4 GBP ; ic\n    bb: 2\n  Assets:Bar -1 USD {{5 EUR}} @@ 6 GBP\n  Assets:Baz',
     '* ignored',
     '; c\n2000-01-01 close Assets:Foo\n; d',
+    # glued spellings: optional parts written without blanks next to their neighbours
+    '2000-01-01 *"p""n"#t\n  !Assets:Foo 1USD{2EUR}@3GBP;ic\n    bb:2',
+    '2000-01-01 balance Assets:Foo 100~0.1 USD',
+    'plugin "a""b"',
+    '2000-01-01 open Assets:Foo USD"STRICT"',
+    'pushmeta aa:1',
+    # number spellings: explicit plus, parentheses, a zero divisor, a compound cost glued to its hash
+    '2000-01-01 *\n  Assets:Foo +1 USD {1.10# 11.00 USD}\n  Assets:Bar (1 + 2)EUR @@(3)GBP\n  Assets:Baz 1/0 USD',
+    # comments whose indentation differs from their owner's
+    '2000-01-01 *\n\t; c\n  Assets:Foo\n      ; d',
+]
+
+# texts with characters that tempt "normalisation": a byte-order mark, decomposed accents, conjoining jamo, no-break and
+# zero-width blanks. Whatever the parser accepts must come back verbatim.
+EXOTIC = [
+    '\ufeff2000-01-01 open Assets:Foo\n', '\ufeff', '\ufeff; c\n',
+    '2000-01-01 open Assets:Cafe\u0301 USD\n', '2000-01-01 open Assets:\u1112\u1161\u11ab USD\n',
+    'option "e\u0301" "\u1112\u1161\u11ab"\n; e\u0301 \ufeff\u200b\u00a0\n',
+    '2000-01-01 * "a\u00a0b" ; x\u200b\n  Assets:Foo 1 USD\n',
+    '2000-01-01 note Assets:Foo "\ufeffn"\n',
 ]
 
 
